@@ -176,6 +176,20 @@ def empty_trailers(allows=(False, True), reader="cursor"):
                     yield case_line(reader, allow, riff(body)), "empty-trailers"
 
 
+def dim_mismatch(reader="cursor"):
+    """a VP8L image inside VP8X whose declared dimensions DIFFER from the canvas / frame dimensions by every kind of near miss: +-1, a
+    multiple of 2^14 (the width of the VP8L field), of 2^16, of 2^24 - 1; swapped; equal only in one coordinate"""
+    for (vw, vh) in ((1, 1), (2, 3), (16384, 1), (5, 16384)):
+        for dw, dh in ((0, 0), (1, 0), (0, 1), (16384, 0), (0, 16384), (65536, 0), (0, 65536), (65536, 65536), (2 * 65536, 0), (255 * 65536, 0)):
+            cw, ch = vw + dw, vh + dh
+            if cw > 2 ** 24 or ch > 2 ** 24 or cw * ch >= 2 ** 32:
+                continue
+            v = chunk(b"VP8L", vp8l_payload(vw, vh))
+            yield case_line(reader, False, riff(mk(b"VP8X", cw=cw, ch=ch) + v)), "dims-mismatch-still"
+            yield case_line(reader, False, riff(mk(b"VP8X", flags=ANIM, cw=min(cw, 4096), ch=min(ch, 4096)) + mk(b"ANIM") +
+                                                chunk(b"ANMF", anmf_payload(v, w=cw, h=ch)))), "dims-mismatch-frame"
+
+
 def valid_files(rng=None):
     """a set of valid files of every shape (used as seeds for mutation/truncation)"""
     out = []
